@@ -36,6 +36,16 @@ def run_programs(progs, flags="std", broken_model=False, fuel=FUEL):
     return recs
 
 
+def mask_junk(v):
+    """the second component an exhausted iterator returns is unspecified (and for union element types
+    depends on hash order): compare `(false, _)` pairs only by their flag"""
+    if isinstance(v, list):
+        if len(v) == 3 and v[0] == "tup" and v[1] == "false":
+            return ["tup", "false", "_"]
+        return [mask_junk(x) for x in v]
+    return v
+
+
 def classify(r):
     s = sexp_parse(r.impl)
     m = sexp_parse(r.model)
@@ -89,7 +99,8 @@ def classify(r):
     else:
         r.status = "model-wrong"          # (wrong ...) / (bad-program) / crash
         return
-    if r.ivalue == r.mvalue:
+    if r.ivalue == r.mvalue or (out[0] == "value" and isinstance(m, list) and m[0] == "value" and
+                               sexp_str(mask_junk(out[1])) == sexp_str(mask_junk(m[1]))):
         r.status = "agree"
     elif out[0] == "value" and isinstance(m, list) and m[0] == "value" and \
             sexp_str(strip_tags(out[1])) == sexp_str(strip_tags(m[1])):
